@@ -464,7 +464,8 @@ impl FatVolume {
                                 first_dir_block_num = self.cluster_to_block(c);
                                 Some(c)
                             }
-                            _ => None,
+                            // anything else is a real error, not the end of the directory
+                            Err(e) => return Err(e),
                         };
                     } else {
                         current_cluster = None;
@@ -528,7 +529,8 @@ impl FatVolume {
                             first_dir_block_num = self.cluster_to_block(c);
                             Some(c)
                         }
-                        _ => None,
+                        // anything else is a real error, not the end of the directory
+                        Err(e) => return Err(e),
                     };
                 }
                 // We ran out of clusters in the chain, and apparently we weren't
@@ -728,7 +730,9 @@ impl FatVolume {
                         first_dir_block_num = self.cluster_to_block(n);
                         Some(n)
                     }
-                    _ => None,
+                    // only the end of the chain ends the directory - not a failed read
+                    Err(Error::EndOfFile) => None,
+                    Err(e) => return Err(e),
                 };
             } else {
                 current_cluster = None;
@@ -774,7 +778,9 @@ impl FatVolume {
             }
             current_cluster = match self.next_cluster(block_cache, cluster) {
                 Ok(n) => Some(n),
-                _ => None,
+                // only the end of the chain ends the directory - not a failed read
+                Err(Error::EndOfFile) => None,
+                Err(e) => return Err(e),
             };
         }
         Ok(())
@@ -828,7 +834,9 @@ impl FatVolume {
                                 first_dir_block_num = self.cluster_to_block(n);
                                 Some(n)
                             }
-                            _ => None,
+                            // only the end of the chain ends the directory - not a failed read
+                            Err(Error::EndOfFile) => None,
+                            Err(e) => return Err(e),
                         };
                     } else {
                         current_cluster = None;
@@ -856,7 +864,9 @@ impl FatVolume {
                     }
                     current_cluster = match self.next_cluster(block_cache, cluster) {
                         Ok(n) => Some(n),
-                        _ => None,
+                        // only the end of the chain ends the directory - not a failed read
+                        Err(Error::EndOfFile) => None,
+                        Err(e) => return Err(e),
                     }
                 }
                 Err(Error::NotFound)
@@ -944,7 +954,9 @@ impl FatVolume {
                                 first_dir_block_num = self.cluster_to_block(n);
                                 Some(n)
                             }
-                            _ => None,
+                            // only the end of the chain ends the directory - not a failed read
+                            Err(Error::EndOfFile) => None,
+                            Err(e) => return Err(e),
                         };
                     } else {
                         current_cluster = None;
@@ -981,7 +993,9 @@ impl FatVolume {
                     // Find the next cluster
                     current_cluster = match self.next_cluster(block_cache, cluster) {
                         Ok(n) => Some(n),
-                        _ => None,
+                        // only the end of the chain ends the directory - not a failed read
+                        Err(Error::EndOfFile) => None,
+                        Err(e) => return Err(e),
                     }
                 }
                 // Ok, give up
